@@ -68,6 +68,13 @@ func c09Gen(c *vfCtx, emit func(c09Case)) {
 										es = append(es, vfEntry{ID: "TestSkip - 1", Body: "s"}, vfEntry{ID: "TestSkip/sub - 1", Body: "s"}, vfEntry{ID: "TestSkipX - 1", Body: "sibling"})
 									}
 									sc.Files = []vfNamedFile{{Name: "f.snap", Entries: es}}
+									if skip {
+										// files that only the skipped test owns: a multi-entry file (with one stale neighbour) and standalone files
+										sc.Files = append(sc.Files, vfNamedFile{Name: "skipowned.snap", Entries: []vfEntry{{ID: "TestSkip/sub - 1", Body: "keep"}, {ID: "TestSkipX - 1", Body: "stale neighbour"}, {ID: "TestSkip - 2", Body: "keep"}}})
+										sc.SFiles["TestSkip_1.snap"] = "keep"
+										sc.SFiles["TestSkip_sub_2.snap.json"] = "{}"
+										sc.SFiles["TestSkipX_1.snap"] = "stale sibling file"
+									}
 									for i, n := range staleFileChoices {
 										if fmask&(1<<i) == 0 {
 											continue
@@ -168,7 +175,7 @@ func c09Run(c *vfCtx, cs c09Case) {
 			c.violation("", fmt.Sprintf("file %s is not obsolete but was removed", name), cs)
 			return
 		}
-		if name == "f.snap" {
+		if name == "f.snap" || name == "skipowned.snap" {
 			continue
 		}
 		if string(a.Data) != string(b.Data) || a.Inode != b.Inode || a.Mtime != b.Mtime {
@@ -186,52 +193,58 @@ func c09Run(c *vfCtx, cs c09Case) {
 		c.violation("", "a directory that no test addressed was touched: "+d, cs)
 		return
 	}
-	// f.snap
-	pre, _ := vfParse(o.before["f.snap"].Data)
-	post, err := vfParse(o.after["f.snap"].Data)
-	if err != nil {
-		c.violation("", fmt.Sprintf("f.snap malformed after Clean: %v", err), cs)
-		return
-	}
-	stale := map[string]bool{}
-	for _, id := range staleE["f.snap"] {
-		stale[id] = true
-	}
-	var want []vfEntry
-	for _, e := range pre {
-		if sc.mayDelete() && stale[e.ID] {
+	// every multi-entry file that Clean examines entry by entry
+	for _, fname := range []string{"f.snap", "skipowned.snap"} {
+		if _, ok := o.before[fname]; !ok {
 			continue
 		}
-		want = append(want, e)
-	}
-	key := func(es []vfEntry) string {
-		var s []string
-		for _, e := range es {
-			s = append(s, e.ID+"\x00"+e.Body)
+		pre, _ := vfParse(o.before[fname].Data)
+		post, err := vfParse(o.after[fname].Data)
+		if err != nil {
+			c.violation("", fmt.Sprintf("%s malformed after Clean: %v", fname, err), cs)
+			return
 		}
-		sort.Strings(s)
-		return strings.Join(s, "\x01")
-	}
-	if key(post) != key(want) {
-		c.violation("", fmt.Sprintf("after Clean (delete allowed=%v) f.snap holds %s, expected the entries %s", sc.mayDelete(), vfShowEntries(post), vfShowEntries(want)), cs)
-		return
-	}
-	if !sc.maySort() && !vfEntriesEqual(post, want) {
-		c.violation("", fmt.Sprintf("sorting not allowed, yet order changed: %v", c05IDs(post)), cs)
-		return
-	}
-	if sc.maySort() {
-		for i := 1; i < len(post); i++ {
-			if cmp, tie := vfNaturalCmp(post[i-1].ID, post[i].ID); cmp > 0 && !tie {
-				c.violation("", fmt.Sprintf("sort requested, ids not in natural order: %v", c05IDs(post)), cs)
-				return
+		stale := map[string]bool{}
+		for _, id := range staleE[fname] {
+			stale[id] = true
+		}
+		var want []vfEntry
+		for _, e := range pre {
+			if sc.mayDelete() && stale[e.ID] {
+				continue
+			}
+			want = append(want, e)
+		}
+		key := func(es []vfEntry) string {
+			var s []string
+			for _, e := range es {
+				s = append(s, e.ID+"\x00"+e.Body)
+			}
+			sort.Strings(s)
+			return strings.Join(s, "\x01")
+		}
+		if key(post) != key(want) {
+			c.violation("", fmt.Sprintf("after Clean (delete allowed=%v) %s holds %s, expected the entries %s", sc.mayDelete(), fname, vfShowEntries(post), vfShowEntries(want)), cs)
+			return
+		}
+		if !sc.maySort() && !vfEntriesEqual(post, want) {
+			c.violation("", fmt.Sprintf("sorting not allowed, yet order changed in %s: %v", fname, c05IDs(post)), cs)
+			return
+		}
+		if sc.maySort() {
+			for i := 1; i < len(post); i++ {
+				if cmp, tie := vfNaturalCmp(post[i-1].ID, post[i].ID); cmp > 0 && !tie {
+					c.violation("", fmt.Sprintf("sort requested, ids of %s not in natural order: %v", fname, c05IDs(post)), cs)
+					return
+				}
 			}
 		}
-	}
-	if vfEntriesEqual(pre, post) {
-		a, b := o.after["f.snap"], o.before["f.snap"]
-		if a.Inode != b.Inode || a.Mtime != b.Mtime || string(a.Data) != string(b.Data) {
-			c.violation("", "f.snap needed neither pruning nor sorting but was rewritten", cs)
+		if vfEntriesEqual(pre, post) {
+			a, b := o.after[fname], o.before[fname]
+			if a.Inode != b.Inode || a.Mtime != b.Mtime || string(a.Data) != string(b.Data) {
+				c.violation("", fname+" needed neither pruning nor sorting but was rewritten", cs)
+				return
+			}
 		}
 	}
 }
